@@ -1,4 +1,5 @@
 -- Root of the typedpy model library: importing every property file makes `lake build TypedpyModel`
 -- re-check all theorems.
+import TypedpyModel.Props.C01
 import TypedpyModel.Props.C02
 import TypedpyModel.Drive.Construct
